@@ -33,6 +33,31 @@ def own(key):
     return PROP
 
 
+def private_spec(name, profile, seed, opts=None, flavor=None):
+    """spec() whose binary is a private copy under build/scratch: the content-addressed build
+    directory may be pruned by a concurrent build of another tree while this check still runs."""
+    last = None
+    for _ in range(4):
+        try:
+            sp = common.spec(name, profile, seed, flavor=flavor, opts=opts)
+            d = os.path.join(vdriver.SCRATCH, "bin-%d" % os.getpid())
+            os.makedirs(d, exist_ok=True)
+            dst = os.path.join(d, os.path.basename(sp["binary"]))
+            if not os.path.exists(dst):
+                shutil.copy2(sp["binary"], dst + ".tmp")
+                os.rename(dst + ".tmp", dst)
+            sp["binary"] = dst
+            return sp
+        except (OSError, RuntimeError) as e:   # pruned between build and copy: build again
+            last = e
+            time.sleep(0.5)
+    raise last
+
+
+def drop_private():
+    shutil.rmtree(os.path.join(vdriver.SCRATCH, "bin-%d" % os.getpid()), ignore_errors=True)
+
+
 def names_cases(L):
     specials = {0x00, 0x01, 0x3f, 0x40, 0x80, 0xbf, 0xc0, 0xc1, 0xff}
     A = len(specials | set(range(12 + L)))
@@ -41,7 +66,7 @@ def names_cases(L):
 
 def fuzz_stage(seed, nproc, runs, res):
     """N independent libFuzzer processes on private corpus copies; crashes re-run singly."""
-    binp, _ = common.harness("legacy_fuzz")
+    binp = private_spec("legacy_fuzz", "fuzz", seed)["binary"]
     root = os.path.join(vdriver.SCRATCH, "c02-fuzz-%d-%d" % (seed, os.getpid()))
     shutil.rmtree(root, ignore_errors=True)
     os.makedirs(root)
@@ -104,25 +129,26 @@ def run(tier, seed, scale=1.0):
     if scale < 0.5:
         L = 3 if quick else 4
     ncases, A = names_cases(L)
-    sp = common.spec("legacy", "names", seed, opts={"L": L})
+    sp = private_spec("legacy", "names", seed, opts={"L": L})
     rn = vdriver.explore(sp, ncases, chunk=max(1, ncases // 96), chunk_timeout=1800)
     names_exhaustive = (rn.counters.get("names_blocks_done", 0) == ncases and not rn.harness_errors and
                         not any(v["key"].startswith(("hang:", "abort:", "asan:", "ubsan:")) for v in rn.violations))
     res.merge(rn)
 
     # ---- total: every decoding entry point on generated / mutated / corpus inputs
-    per = int((40000 if quick else 2400000) * scale)
-    sp = common.spec("legacy", "total", seed, opts={"corpus": CORPUS})
+    per = int((30000 if quick else 2400000) * scale)
+    sp = private_spec("legacy", "total", seed, opts={"corpus": CORPUS})
     res.merge(vdriver.explore(sp, per, chunk=max(50, min(400, per // 128)), chunk_timeout=900,
                               stop_after_violations=100000))
 
     # ---- optional libFuzzer stage (thorough only)
     if not quick and scale >= 0.05:
         try:
-            fuzz_stage(seed, 16, int(60000 * scale), res)
+            fuzz_stage(seed, 16, int(15000 * scale), res)
         except Exception as e:  # build or run problem of the optional stage
             res.harness_errors.append("fuzz stage: %r" % (e,))
 
+    drop_private()
     extra = dict(names_max_length=L, names_alphabet_size=A, names_blocks=ncases,
                  names_buffers=rn.counters.get("names_buffers", 0), names_exhaustive=names_exhaustive)
     return common.finish(PROP, tier, seed, "exploration", res, own, RULE, t0,
